@@ -39,7 +39,7 @@ def denotes(url):
 
 
 ANSWERS = {"plain": ["gemini://example.org/next", "/relative/target", "gemini://example.org/a%5Bb%5D"],
-           "markup": ["gemini://example.org/search?filter[name]=x", "gemini://example.org/[bold]x", "gemini://[2001:db8::1]/[red]"],
+           "markup": ["gemini://example.org/search?filter[name]=x", "gemini://example.org/[bold]x", "gemini://[2001:db8::1]/[red]", "gemini://example.org/dir/:x:/file", "/issues/:100:"],
            "closing": ["gemini://example.org/a[/]b", "gemini://example.org/x[/bold]"]}
 
 
